@@ -84,9 +84,20 @@ def main(argv=None):
     t0 = time.time()
     mod = importlib.import_module("props." + prop.lower())
     jobs = mod.plan(a.tier)
+    # replay files live in replays/<ID>/run_<pid>/ so that concurrent runs of the same check do not disturb each
+    # other; directories of finished runs are stale and removed
     import glob
+    import shutil
     for old in glob.glob(os.path.join(runner.REPLAY_DIR, prop, "*.json")):
-        os.unlink(old)  # replay files of earlier runs are stale
+        os.unlink(old)
+    for d in glob.glob(os.path.join(runner.REPLAY_DIR, prop, "run_*")):
+        try:
+            pid = int(d.rsplit("_", 1)[1])
+        except ValueError:
+            continue
+        if not os.path.exists(f"/proc/{pid}"):
+            shutil.rmtree(d, ignore_errors=True)
+    runner.RUN_TAG = f"run_{os.getpid()}"
     if a.only:
         jobs = [(h, o) for h, o in jobs if a.only in h.name]
     for h, o in jobs:
